@@ -9,6 +9,26 @@ REL = {"name": "release", "profile": "release", "primary": True}
 DEV = {"name": "dev", "profile": "dev", "primary": False, "args": ["--scale", "0.25"], "min_scale": 0.0}
 DEV_T = dict(DEV, tiers=("thorough",))
 
+THO = ("thorough",)
+ASAN_ENV = {"ASAN_OPTIONS": "detect_leaks=0:halt_on_error=1:abort_on_error=1:allocator_may_return_null=1:max_allocation_size_mb=4096"}
+ASAN_C09 = {"name": "asan", "profile": "asan", "primary": False, "tiers": THO, "args": ["--set", "noaslimit=1", "--scale", "0.2"],
+            "env": ASAN_ENV, "timeout": 3000, "min_scale": 0.0}
+MIRI_C09 = {"name": "miri", "kind": "miri", "primary": False, "tiers": THO, "args": ["--set", "inproc=1", "--set", "groups=8"],
+            "miriflags": "-Zmiri-tree-borrows -Zmiri-disable-isolation -Zmiri-ignore-leaks", "timeout": 2400,
+            "shards": [["--set", "gmod=0", "--set", "stride=12"], ["--set", "gmod=1", "--set", "stride=12"],
+                       ["--set", "gmod=2", "--set", "stride=12"], ["--set", "gmod=3", "--set", "stride=12"],
+                       ["--set", "gmod=4", "--set", "stride=6"], ["--set", "gmod=5", "--set", "stride=60"],
+                       ["--set", "gmod=6", "--set", "stride=150"], ["--set", "gmod=7", "--set", "stride=60"]]}
+VALGRIND_C09 = {"name": "valgrind", "kind": "valgrind", "primary": False, "tiers": THO, "timeout": 3000,
+                "args": ["--set", "inproc=1", "--set", "groups=24", "--set", "stride=6", "--threads", "1"]}
+FUZZ_C09 = {"name": "libfuzzer+asan:c09_crash", "kind": "fuzz", "target": "c09_crash", "seconds": 90, "primary": False, "tiers": THO}
+FUZZ_C08 = {"name": "libfuzzer:c08_diff", "kind": "fuzz", "target": "c08_diff", "seconds": 60, "primary": False, "tiers": THO}
+MIRI_TINY = {"name": "miri", "kind": "miri", "primary": False, "tiers": THO, "args": ["--set", "tiny=1", "--set", "smallpools=1"],
+             "miriflags": "-Zmiri-tree-borrows -Zmiri-disable-isolation -Zmiri-ignore-leaks", "timeout": 2400}
+TSAN_C14 = {"name": "tsan", "kind": "tsan", "primary": False, "tiers": THO, "args": ["--set", "only=concurrent", "--scale", "0.2"], "timeout": 3000}
+TSAN_C18 = {"name": "tsan", "kind": "tsan", "primary": False, "tiers": THO, "args": ["--scale", "0.03"], "timeout": 3000}
+REL_LONG = dict(REL, timeout=7200)
+
 PROPS = {}
 MANIFEST_TEXT = {}
 NOT_APPLICABLE = {}
@@ -135,7 +155,7 @@ P("C08", "fault_enumeration",
   ["the layout model is the documented layout (4-byte LE lengths, 24-byte LE canonical elements, 64-byte J, trailing partial element "
    "and bytes after the report tag ignored)"],
   {"differential": 100000, "both_accept": 20000, "both_reject": 20000, "report_roundtrip": 1000, "adss_roundtrip": 500, "sharks_roundtrip": 500},
-  [REL, DEV],
+  [REL, DEV, FUZZ_C08],
   "runtime differential decoding against an independent layout parser (release and overflow-checked dev builds; libFuzzer in thorough)",
   "Every enumerated structural fault of every generated artefact was decoded by both the real decoder and the model; agreement on "
   "accept/reject and on the canonical re-encoding.",
@@ -151,7 +171,7 @@ P("C09", "fault_enumeration",
   {"call:MessageFromBytes": 5000, "call:AdssFromBytes": 5000, "call:ClientVerify": 5000, "call:GroupShares": 3000,
    "call:ServerEval": 500, "call:AdssRecover": 200, "call:ShareRecover": 200, "call:SharksRecover": 200, "call:PkLoad": 1000,
    "call:ProofLoad": 500, "call:JsonEvaluation": 1000, "call:SharksTryFrom": 2000, "call:LoadBytes": 500, "children_completed": 1},
-  [REL, DEV],
+  [REL, DEV, ASAN_C09, VALGRIND_C09, MIRI_C09, FUZZ_C09],
   "runtime panic/abort observer over a structure-aware hostile corpus (release + dev; ASan, Miri, valgrind, libFuzzer in thorough)",
   "Every listed entry point was called on every enumerated malformed / degenerate input; no panic, abort or sanitizer report, and "
   "structurally invalid input came back through the failure channel.",
@@ -166,7 +186,7 @@ P("C10", "exploration",
   "punctured sets visited.",
   ["each task uses its own fresh key (values differ per key; behaviour is relational to that key's baseline)"],
   {"table_checks": 10000, "punctures": 10000, "subdomain_transitions": 3000, "ordered_pairs": 3000, "complete_puncturings": 7},
-  [REL],
+  [REL_LONG, MIRI_TINY],
   "runtime reference-model monitor (baseline table + punctured set) over exhaustive sub-domain exploration of the real key",
   "Exhaustive over the listed sub-spaces (exhaustive_subspaces=true in the evidence), sampled long sequences beyond.",
   "256-input domain fully evaluated after every transition")
@@ -222,7 +242,7 @@ P("C14", "exploration",
   ["thread interleavings are whatever the stress produced; overlapping eval/puncture pairs are counted"],
   {"exhaustive_sequences": 30000, "export_positions": 3000, "importer_comparisons": 50000, "concurrent_events": 5000,
    "histories_with_real_overlap": 5},
-  [REL],
+  [REL_LONG, TSAN_C14],
   "runtime sequential reference model: bounded-exhaustive operation sequences on the real Server + offline history checker for the concurrent stress",
   "All 8^5 (8^6) sequences per configuration executed; held on every leaf; concurrent histories checked offline.",
   "model: registered set fixed at creation, punctured set per instance, memo of answers")
@@ -273,7 +293,7 @@ P("C18", "exploration",
   ["needs star-test-utils feature verif-hooks", "replayed copies of one report are outside 'honest reports'"],
   {"server_runs": 300, "buckets_observed_by_hook": 3000, "runs_on_several_worker_threads": 50, "pool16_runs_on_several_threads": 5,
    "pool2_runs_on_several_threads": 5},
-  [REL],
+  [REL_LONG, TSAN_C18, MIRI_TINY],
   "runtime conservation/exactly-once monitor with unique client ids + schedule fingerprints via hook",
   "Held on every (scenario, pool, permutation) run; distinct schedules counted in the evidence.",
   "schedules are whatever rayon + jitter produced")
